@@ -19,8 +19,27 @@ entirely outside the padded image must have cost NaN; on noise-free images
 drawn from the fitted model with separated features every feature is fitted
 and ends < 0.1 px from the true centre (starts up to 1.5 px off).  The accuracy
 sentence has no theorem (optimiser + analysis): monitor only.
+
+Route T (bounds assembly): tools/py2coq_bounds.py re-translates the CURRENT source of
+FitFunctions.validate_bounds / compute_bounds and their wiring in refine_leastsq into
+coq/Gen/bounds.v on every run; the cone of Properties/C16.v (Proofs/BoundsGen.v:
+generated = hand model for all inputs) is rebuilt.  A translation error or a proof that
+no longer checks is reported through chk.proof_broken and the run still searches for a
+concrete failing input with the hand model.  In addition (d) every direct case is run
+through the generated code (Model/RefineGenCheck.check_gen_box, from diameter).
+
+  (e) driver replay (Model/RefineCheck2.check_drive): during every real run the calls of
+      prepare_subimages / minimize / compute_bounds are recorded (wrappers installed on the
+      imported module, /repo untouched); per unit the recorded per-iteration outcomes are
+      the oracles of the driver model Model/RefineDriver2.v (theorem C16_driver_full is
+      about exactly this model, for arbitrary oracles); model and implementation must
+      agree on the number of recentring iterations, failed / fitted, every written-back
+      value and the cost.  Family 'exhaust' drives the loop into exhaustion of max_iter
+      (max_iter 1-2, starts 1-2.5 px off, tiny max_shift, poor model fits with small
+      max_rms_dev): finite cost implies cost <= max_rms_dev and values within bounds,
+      NaN cost implies inputs kept.
 """
-import json, math
+import json, math, os, sys, hashlib
 import numpy as np
 import pandas as pd
 from fractions import Fraction
@@ -28,6 +47,13 @@ import common
 from common import cnat, cQ, clist, copt
 
 IMPORTS = "From TP Require Import Model.RefineBounds Model.RefineDriver Model.RefineCheck."
+IMPORTS_GEN = "From TP Require Import Model.RefineBounds Model.RefineDriver Model.RefineCheck Model.RefineGenCheck."
+IMPORTS_DRIVE = "From TP Require Import Model.RefineBounds Model.RefineDriver Model.RefineCheck Model.RefineDriver2 Model.RefineCheck2."
+TRANSLATOR = os.path.join(common.VERIF, 'tools', 'py2coq_bounds.py')
+GEN = os.path.join(common.COQ, 'Gen', 'bounds.v')
+STATE = dict(gen_ok=False, drive_ok=False)
+TOL_SHIFT = Fraction(1, 10 ** 9)
+RESIDUAL_FACTOR = 100000.      # default of refine_leastsq; the harness never passes another value
 TOL_BOX = Fraction(1, 2 ** 40)
 TOL_MON = Fraction(1, 10 ** 9)
 
@@ -40,12 +66,80 @@ CODES = {0: 'ok',
          12: 'validate_bounds: difference bounds differ from the model', 13: 'validate_bounds: relative bounds differ from the model',
          21: 'compute_bounds: lower bounds differ from the model', 22: 'compute_bounds: upper bounds differ from the model',
          31: 'unit with a non-finite start parameter reported as fitted', 32: 'fitted unit contains a non-finite parameter',
-         33: 'cost differs within a unit or is negative'}
+         33: 'cost differs within a unit or is negative',
+         41: 'driver replay: the model ends in RefineException (cost NaN, values kept) but the implementation reports a fit',
+         42: 'driver replay: the model reports a fit but the implementation has cost NaN',
+         43: 'driver replay: written-back parameters differ from the model (wrong iteration written back?)',
+         44: 'driver replay: cost differs from the rms deviation of the last iteration',
+         45: 'driver replay: the model lets an exception escape',
+         46: 'driver replay: number of recentring iterations differs from the model'}
+DRIVE_OK = {100: 'ended by break, fitted', 101: 'ended by break, rms_dev > max_rms_dev', 102: 'max_iter exhausted without break, fitted',
+            103: 'max_iter exhausted without break, rms_dev > max_rms_dev', 104: 'RefineException inside the loop',
+            105: 'non-finite start values'}
 
 SKIP_EMPTY = 'skipped (outside the property): bounds infeasible for some unit (empty box)'
 SKIP_NANPOS = 'skipped (outside the property): non-finite position'
 
 POS = {2: ['y', 'x'], 3: ['z', 'y', 'x']}
+
+
+# --------------------------------------------------------------------------
+# translator / build (route T)
+# --------------------------------------------------------------------------
+def regenerate(chk):
+    """re-run the translator on the current source; returns (ok, text-or-log)"""
+    rc, out = common.sh([sys.executable, TRANSLATOR, '--repo', common.REPO, '--stdout'], timeout=60)
+    if rc != 0:
+        return False, out
+    with common.Lock(os.path.join(common.COQ, '.build.lock')):
+        old = open(GEN).read() if os.path.exists(GEN) else None
+        if old != out:
+            os.makedirs(os.path.dirname(GEN), exist_ok=True)
+            tmp = GEN + '.tmp%d' % os.getpid()
+            with open(tmp, 'w') as f:
+                f.write(out)
+            os.replace(tmp, GEN)
+            chk.tally('Gen/bounds.v rewritten (source differs from last run)')
+        else:
+            chk.tally('Gen/bounds.v unchanged')
+    return True, out
+
+
+def ensure_vo(chk, targets, what):
+    """executable model files needed by the correspondence run even when a proof of the cone is broken"""
+    with common.Lock(os.path.join(common.COQ, '.build.lock')):
+        rc, out = common.sh('timeout 600 make %s 2>&1 | tail -40' % ' '.join(t + 'o' for t in targets), timeout=630, cwd=common.COQ)
+        for t in targets:
+            vo = os.path.join(common.COQ, t + 'o')
+            if not (os.path.exists(vo) and os.path.getmtime(vo) >= os.path.getmtime(os.path.join(common.COQ, t))):
+                chk.proof_broken(what, out)
+                return False
+    return True
+
+
+def build(chk):
+    """translator -> cone of Properties/C16.v -> executable check files"""
+    STATE['gen_ok'] = STATE['drive_ok'] = False
+    ok, text = regenerate(chk)
+    if not ok:
+        chk.proof_broken('translation tools/py2coq_bounds.py (the bounds assembly left the translatable subset)', text)
+        chk.build = dict(obligations=0, discharged=0, assumptions=[], files=[], theorems=[])
+    else:
+        for attempt in range(3):
+            b = chk.coq()
+            if open(GEN).read() == text:
+                break
+            # another run (different TRACKPY_REPO) rewrote the generated file in between: redo
+            chk.violations = [v for v in chk.violations if not v[0].startswith('proof:')]
+            regenerate(chk)
+        chk.notes.append('Gen/bounds.v sha1 %s generated from %s' % (hashlib.sha1(text.encode()).hexdigest()[:12], common.REPO))
+    # the hand model and the monitors must be executable whatever happened above
+    base = ensure_vo(chk, ['Model/RefineBounds.v', 'Model/RefineDriver.v', 'Model/RefineCheck.v'], 'Model/RefineCheck.v (hand model does not build)')
+    STATE['drive_ok'] = base and ensure_vo(chk, ['Model/RefineCheck2.v'], 'Model/RefineCheck2.v (driver replay does not build)')
+    if ok:
+        STATE['gen_ok'] = base and ensure_vo(chk, ['Model/RefineGenCheck.v'], 'Gen/bounds.v / Model/RefineGenCheck.v (generated bounds code does not build)') \
+            and open(GEN).read() == text
+    return base
 
 
 # --------------------------------------------------------------------------
@@ -218,6 +312,8 @@ def gen_direct(rng, tier):
     radius = [rng.choice([3, 4, 5, 6, 7]) for _ in range(ndim)]
     if iso:
         radius = [radius[0]] * ndim
+    par = rng.randint(0, 1)
+    diameter = [2 * r + par for r in radius]      # refine_leastsq: radius = diameter // 2
     n = rng.randint(1, 6)
     names = param_names(ndim, iso)
     style = rng.choice(['plain', 'plain', 'signed', 'zeros'])
@@ -245,7 +341,7 @@ def gen_direct(rng, tier):
         k = rng.randint(1, n)
         cuts = sorted(rng.sample(range(1, n), k - 1)) if n > 1 and k > 1 else []
         groups = [sorted(idx[a:b]) for a, b in zip([0] + cuts, cuts + [n])]
-    return dict(ndim=ndim, iso=iso, param_mode=pm, bounds=bounds, radius=radius, params=params, groups=groups)
+    return dict(ndim=ndim, iso=iso, param_mode=pm, bounds=bounds, radius=radius, diameter=diameter, params=params, groups=groups)
 
 
 def run_direct(c):
@@ -268,6 +364,16 @@ def direct_terms(c, modes, v, box):
         d, rad, ps, clist([cnat(m) for m in modes]), grouping_term(c['groups']), cols,
         clist([cE(b[0]) for b in box]), clist([cE(b[1]) for b in box]), cQ(TOL_BOX))
     return "(match %s with 0%%N => %s | e => e end)" % (t1, t2)
+
+
+def direct_gen_term(c, modes, box):
+    """the same case through the GENERATED code, starting from diameter"""
+    d, rad, ps = head_term(c)
+    diam = c.get('diameter') or [2 * r + 1 for r in c['radius']]
+    cols = clist([clist([cQ(row[j]) for row in c['params']]) for j in range(len(c['params'][0]))])
+    return "check_gen_box %s %s %s %s %s %s %s %s %s" % (
+        d, clist(['%d%%Z' % x for x in diam]), ps, clist([cnat(m) for m in modes]), grouping_term(c['groups']), cols,
+        clist([cE(b[0]) for b in box]), clist([cE(b[1]) for b in box]), cQ(TOL_BOX))
 
 
 # --------------------------------------------------------------------------
@@ -314,21 +420,76 @@ def table_of(c):
     return f
 
 
+class Recorder:
+    """records what the recentring loop of refine_leastsq saw: one block per unit whose try block got as far as
+    compute_bounds (i.e. finite start values), holding the start parameter array and, per iteration, whether
+    prepare_subimages raised RefineException and what minimize returned.  The three names are rebound on the
+    imported module object for the duration of one call; /repo is not touched."""
+
+    def __init__(self):
+        self.blocks = []
+
+    def __enter__(self):
+        import trackpy.refine.least_squares as ls
+        self.ls = ls
+        self.orig = (ls.minimize, ls.prepare_subimages, ls.FitFunctions.compute_bounds)
+        rec = self
+        o_min, o_prep, o_cb = self.orig
+
+        def compute_bounds(self_ff, bounds, params, groups=None):
+            rec.blocks.append(dict(params=np.array(params, dtype=np.float64).copy(), img=[], opts=[]))
+            return o_cb(self_ff, bounds, params, groups)
+
+        def prepare_subimages(*a, **k):
+            try:
+                r = o_prep(*a, **k)
+            except ls.RefineException:
+                if rec.blocks:
+                    rec.blocks[-1]['img'].append(False)
+                raise
+            if rec.blocks:
+                rec.blocks[-1]['img'].append(True)
+            return r
+
+        def minimize(*a, **k):
+            try:
+                res = o_min(*a, **k)
+            except ls.RefineException:
+                if rec.blocks:
+                    rec.blocks[-1]['opts'].append(None)
+                raise
+            if rec.blocks:
+                if not res['success']:
+                    rec.blocks[-1]['opts'].append(None)
+                else:
+                    with np.errstate(all='ignore'):
+                        rms = float(np.sqrt(res['fun'] / RESIDUAL_FACTOR))
+                    rec.blocks[-1]['opts'].append(([float(v) for v in np.asarray(res['x'], dtype=np.float64)], rms))
+            return res
+        ls.minimize, ls.prepare_subimages, ls.FitFunctions.compute_bounds = minimize, prepare_subimages, compute_bounds
+        return self
+
+    def __exit__(self, *exc):
+        self.ls.minimize, self.ls.prepare_subimages, self.ls.FitFunctions.compute_bounds = self.orig
+        return False
+
+
 def run_refine(c):
-    """-> ('ok', DataFrame out, DataFrame start-with-defaults) | ('raised', exc)"""
+    """-> ('ok', DataFrame out, DataFrame start-with-defaults, recorded blocks) | ('raised', exc, start, blocks)"""
     from trackpy.refine.least_squares import refine_leastsq
     im = model_image(c)
     f = table_of(c)
     kw = dict(c.get('kwargs', {}))
     if 'options' in kw:
         kw['options'] = dict(kw['options'])
-    try:
-        out = refine_leastsq(f.copy(), im, tuple(c['diameter']) if len(set(c['diameter'])) > 1 else c['diameter'][0],
-                             separation=c.get('separation'), param_mode=None if c['param_mode'] is None else dict(c['param_mode']),
-                             bounds=py_bounds(c['bounds']) if c['bounds'] is not None else None, **kw)
-    except Exception as e:   # noqa
-        return ('raised', e, f)
-    return ('ok', out, f)
+    with Recorder() as rec:
+        try:
+            out = refine_leastsq(f.copy(), im, tuple(c['diameter']) if len(set(c['diameter'])) > 1 else c['diameter'][0],
+                                 separation=c.get('separation'), param_mode=None if c['param_mode'] is None else dict(c['param_mode']),
+                                 bounds=py_bounds(c['bounds']) if c['bounds'] is not None else None, **kw)
+        except Exception as e:   # noqa
+            return ('raised', e, f, rec.blocks)
+    return ('ok', out, f, rec.blocks)
 
 
 def start_value(f, name, label):
@@ -378,6 +539,28 @@ def unit_term(c, modes, labels, groups, fstart, out):
     cost = clist([cE(out[L]['cost']) for L in labels])
     return "check_unit %s %s %s %s %s %s %s %s %s" % (d, rad, ps, clist([cnat(m) for m in modes]), grouping_term(groups),
                                                       start, outc, cost, cQ(TOL_MON))
+
+
+def drive_term(c, modes, labels, groups, fstart, out, block):
+    """replay of one unit through Model/RefineDriver2 (check_drive); block = the recorded iterations or None"""
+    names = param_names(c['ndim'], c['iso'])
+    d, rad, ps = head_term(c)
+    start = clist([clist([cE(start_value(fstart, nm, L)) for L in labels]) for nm in names])
+    outc = clist([clist([cE(out[L][nm]) for L in labels]) for nm in names])
+    cost = clist([cE(out[L]['cost']) for L in labels])
+    kw = c.get('kwargs', {})
+    img = block['img'] if block else []
+    opts = block['opts'] if block else []
+    oterms = []
+    for o in opts:
+        if o is None or not (math.isfinite(o[1]) and all(math.isfinite(v) for v in o[0])):
+            oterms.append('OFail')
+        else:
+            oterms.append('(OSucc %s %s)' % (clist([cQ(v) for v in o[0]]), cQ(o[1])))
+    return "check_drive %s %s %s %s %s %s %s %s %s %s %s %s %s %s %s %s" % (
+        d, rad, ps, clist([cnat(m) for m in modes]), cnat(c['ndim']), grouping_term(groups),
+        cnat(int(kw.get('max_iter', 10))), cQ(float(kw.get('max_shift', 1))), cQ(float(kw.get('max_rms_dev', 1.0))), cQ(TOL_SHIFT),
+        start, clist(['true' if b else 'false' for b in img]), clist(oterms), cnat(len(img)), outc, cost)
 
 
 def empty_term(c, modes, labels, groups, fstart):
@@ -489,6 +672,51 @@ def gen_nonconv(rng, tier):
     c['family'] = 'nonconvergent'
     c['kwargs'] = dict(options=dict(maxiter=rng.choice([1, 2]), disp=False))
     return c
+
+
+def gen_exhaust(rng, tier):
+    """the recentring loop is driven into exhaustion of max_iter: 1 or 2 iterations allowed, starts 1 - 2.5 px off,
+    mostly a max_shift so small that the accept branch cannot fire; part of the cases fit a deliberately wrong
+    model (size held constant at a wrong value, or a noisy image) under a small max_rms_dev, so that the test after
+    the loop decides: finite cost must be <= max_rms_dev with values inside the bounds, NaN cost must keep the inputs"""
+    c = base_case(rng, 'exhaust')
+    nd = c['ndim']
+    n = rng.randint(1, 3 if nd == 2 else 2)
+    margin = [r + 4 for r in c['radius']]
+    dimer = rng.random() < 0.25
+    c['centres'] = place(rng, c['shape'], margin, (0.6 if dimer else 1.5) * max(c['diameter']) + (0 if dimer else 3), n)
+    starts = []
+    for ctr in c['centres']:
+        v = [rng.gauss(0, 1) for _ in range(nd)]
+        nv = math.sqrt(sum(x * x for x in v)) or 1.0
+        rad = rng.uniform(1.0, 2.5)
+        starts.append([ctr[k] + v[k] / nv * rad for k in range(nd)])
+    poor = rng.choice(['no', 'no', 'size', 'noise', 'signal'])
+    c['rows'] = rows_from(rng, c, starts, exact=True)
+    c['param_mode'] = rng.choice([None, None, dict(size='var'), dict(signal='cluster'), dict(size='global')])
+    if poor == 'size':
+        k = rng.choice([0.5, 0.6, 1.6, 2.0])
+        for r in c['rows']:
+            for j in range(nd + 1, nd + 1 + (1 if c['iso'] else nd)):
+                r[j] = r[j] * k
+        c['param_mode'] = dict(size='const')
+    elif poor == 'signal':
+        for r in c['rows']:
+            r[nd] = r[nd] * rng.choice([0.4, 1.8])
+        c['param_mode'] = dict(signal='const')
+    elif poor == 'noise':
+        c['noise'] = rng.choice([4.0, 12.0])
+    c['truth'] = None
+    c['poor'] = poor
+    kw = dict(max_iter=rng.choice([1, 1, 2, 2, 3]), max_shift=rng.choice([1e-6, 1e-3, 1e-3, 0.05, 0.5, 1]))
+    r = rng.random()
+    if r < 0.75:
+        kw['max_rms_dev'] = rng.choice([1e-6, 1e-4, 1e-3, 5e-3, 0.02, 0.05, 0.1])
+    c['kwargs'] = kw
+    if rng.random() < 0.35:
+        c['bounds'] = rng.choice([dict(pos_abs=3.0), dict(pos_abs=(1.0, 1.0)), dict(signal=(1.0, 1000.0)), dict(size=(0.5, 16.0)),
+                                  dict(pos_abs=0.5), dict(signal_rel=1.5, background=(0.0, 255.0))])
+    return finish_table(rng, c)
 
 
 def gen_bounded(rng, tier):
@@ -649,6 +877,8 @@ class Runs:
         self.chk = chk
         self.terms = []
         self.owner = []
+        self.dterms = []
+        self.downer = []
         self.reported = set()
 
     def violate(self, sig, text, c, extra=None):
@@ -715,6 +945,7 @@ class Runs:
             self.violate('refine_leastsq raised ' + type(e).__name__, 'refine_leastsq raised %s on finite positions and a feasible bounds dictionary' % msg, c, dict(exception=msg))
             return
         out, f = res[1], res[2]
+        blocks = list(res[3])
         # ---- Python-side monitors
         if len(out) != nrows or sorted(map(str, out.index)) != sorted(map(str, f.index)):
             self.violate('refine_leastsq: rows or labels lost', 'output has %d rows / labels %s for input labels %s' % (len(out), list(out.index), list(f.index)), c)
@@ -737,6 +968,20 @@ class Runs:
             coords = [[float(fd[L][p]) for p in POS[c['ndim']]] for L in labels]
             fin = all(math.isfinite(start_value(fd, nm, L)) for nm in param_names(c['ndim'], c['iso']) for L in labels)
             ooi = all_out_of_image(coords, c['shape'], c['radius'])
+            # ---- driver replay: the recorded iterations of this unit (units without finite start values have none)
+            if STATE['drive_ok']:
+                block = None
+                if fin:
+                    block = blocks.pop(0) if blocks else dict(params=None, img=[], opts=[])
+                    want = np.array([[start_value(fd, nm, L) for nm in param_names(c['ndim'], c['iso'])] for L in labels], dtype=np.float64)
+                    if block['params'] is None or block['params'].shape != want.shape or not np.array_equal(block['params'], want):
+                        self.violate('refine_leastsq: the units fitted are not the (frame, cluster) groups of the table',
+                                     'unit %s: the parameter array handed to compute_bounds is not the start rows of this unit' % (labels,), c)
+                        block = None
+                        blocks = []
+                if block is not None or not fin:
+                    self.dterms.append(drive_term(cb, modes, labels, groups, fd, od, block))
+                    self.downer.append((c, labels, block))
             if not fin:
                 chk.tally('unit: non-finite start parameter')
             elif ooi:
@@ -771,7 +1016,10 @@ class Runs:
                     if not math.isnan(float(od[L]['cost'])):
                         self.violate('refine_leastsq: non-converged fit accepted', 'feature %s: SLSQP limited to %d iteration(s) from a start %.2f px off, yet cost is %r'
                                      % (L, c['kwargs']['options']['maxiter'], off, od[L]['cost']), c)
-        chk.count(('run', case_json(c)), (nfit > 0 or c['family'] in ('nonconvergent', 'failure')) and (len(units) > 1 or bool(c['bounds']) or c['param_mode'] is not None))
+        if STATE['drive_ok'] and blocks:
+            self.violate('refine_leastsq: more units were fitted than the table has (frame, cluster) groups',
+                         '%d recorded try blocks are left over after all units of the output were matched' % len(blocks), c)
+        chk.count(('run', case_json(c)), (nfit > 0 or c['family'] in ('nonconvergent', 'failure', 'exhaust')) and (len(units) > 1 or bool(c['bounds']) or c['param_mode'] is not None))
         if len(chk.coverage['samples']) < 3 and c['family'] != 'corpus':
             chk.sample(dict(case=case_json(c), output={nm: [repr(float(x)) for x in out[nm]] for nm in param_names(c['ndim'], c['iso']) + ['cost']}))
 
@@ -782,6 +1030,22 @@ class Runs:
             if r != 0:
                 self.violate('refine_leastsq: ' + CODES.get(r, str(r)), 'unit %s: %s' % (info, CODES.get(r, r)), c, dict(code=r, unit=[str(x) for x in info]))
         self.terms, self.owner = [], []
+        if self.dterms:
+            res = common.coq_eval_lists(chk.work, IMPORTS_DRIVE, "fun x : N => x", self.dterms, shard=60 if chk.tier == 'quick' else 200, tag='drive')
+            for (c, labels, block), r in zip(self.downer, res):
+                kw = c.get('kwargs', {})
+                if r in DRIVE_OK:
+                    chk.tally('driver replay: ' + DRIVE_OK[r])
+                    if r in (102, 103):
+                        chk.tally('driver replay: exhausted with max_iter=%s' % kw.get('max_iter', 10))
+                    if c['family'] == 'exhaust':
+                        chk.tally('exhaust family: ' + DRIVE_OK[r])
+                elif r == 47:
+                    chk.tally('driver replay: skipped, shift within 1e-9 of max_shift (float decision ambiguous)')
+                else:
+                    self.violate('refine_leastsq: ' + CODES.get(r, 'driver replay code %s' % r), 'unit %s: %s (recorded iterations: %d)'
+                                 % (labels, CODES.get(r, r), len(block['img']) if block else 0), c, dict(code=r, unit=[str(x) for x in labels]))
+        self.dterms, self.downer = [], []
 
 
 def run(chk):
@@ -794,13 +1058,13 @@ def run(chk):
     common.quiet_trackpy()
     import logging
     logging.getLogger('trackpy').setLevel(logging.CRITICAL)
-    chk.coq()
-    lap('coq build')
+    build(chk)
+    lap('translate + coq build')
     rng = chk.rng
     quick = chk.tier == 'quick'
     # (a) + (b)
     nd = 300 if quick else 3000
-    cases, terms = [], []
+    cases, terms, gterms = [], [], []
     for _ in range(nd):
         c = gen_direct(rng, chk.tier)
         try:
@@ -811,6 +1075,7 @@ def run(chk):
             continue
         cases.append(c)
         terms.append(direct_terms(c, modes, v, box))
+        gterms.append(direct_gen_term(c, modes, box))
         chk.tally('direct: groups ' + ('given' if c['groups'] else 'None'))
     res = common.coq_eval_lists(chk.work, IMPORTS, "fun x : N => x", terms, shard=40 if quick else 150, tag='direct')
     seen = set()
@@ -822,10 +1087,24 @@ def run(chk):
     if cases:
         chk.sample(dict(direct=dict(cases[0], bounds=js_bounds(cases[0]['bounds']))))
     lap('direct bounds')
+    # (d) the same cases through the generated code (translator + vocabulary against the implementation)
+    if STATE['gen_ok']:
+        res = common.coq_eval_lists(chk.work, IMPORTS_GEN, "fun x : N => x", gterms, shard=40 if quick else 150, tag='directgen')
+        seen = set()
+        for c, r in zip(cases, res):
+            chk.tally('direct through Gen/bounds.v: ' + ('agrees' if r == 0 else 'differs'))
+            if r != 0 and r not in seen:
+                seen.add(r)
+                chk.violation('generated bounds code: ' + CODES.get(r, str(r)), 'Gen/bounds.v (translated from the current source) disagrees with the '
+                              'implementation it was translated from: ' + CODES.get(r, str(r)),
+                              dict(kind='direct', code=r, via='generated', case=dict(c, bounds=js_bounds(c['bounds']))))
+        lap('direct bounds, generated')
+    else:
+        chk.tally('direct through Gen/bounds.v: not run (generated code unavailable)')
     # (c)
     runs = Runs(chk)
     plan = [(gen_accuracy, 90 if quick else 900), (gen_bounded, 180 if quick else 2300), (gen_failure, 110 if quick else 1200),
-            (gen_tight, 30 if quick else 300), (gen_nonconv, 30 if quick else 300)]
+            (gen_tight, 30 if quick else 300), (gen_nonconv, 30 if quick else 300), (gen_exhaust, 70 if quick else 400)]
     todo = list(CORPUS)
     for gen, n in plan:
         todo += [gen(rng, chk.tier) for _ in range(n)]
@@ -841,10 +1120,18 @@ def run(chk):
         "dyadic parameter arrays, all mode vectors the API yields, groups None or a random partition; compared with the Coq model. "
         "(c) refine_leastsq on synthetic Gaussian images, 2-D/3-D, iso/anisotropic, single features and overlapping clusters, levels cluster/global, "
         "families: accuracy (noise-free exact model, starts <= 1.5 px off), bounds (random modes and dictionaries, noise), failure (out-of-image, edge, NaN/inf "
-        "parameters, flat starts, tiny max_rms_dev, SLSQP maxiter 1-3, zero/constant images), tight (windows at the edge of feasibility, zero-width boxes), nonconvergent (exact-model features with SLSQP limited to 1-2 iterations: must fail), corpus; draws whose box is empty for some unit (decided by the Coq model) or with a non-finite position are invalid arguments, outside the property: counted as skipped, not run; "
-        "every unit goes through the Coq monitor check_unit. non-trivial = direct case with a non-empty dictionary / run with a fitted unit and "
+        "parameters, flat starts, tiny max_rms_dev, SLSQP maxiter 1-3, zero/constant images), exhaust (max_iter 1-3, starts 1-2.5 px off, max_shift down to 1e-6 so that the loop "
+        "runs out without a break, wrong constant size/signal or noise with max_rms_dev 1e-6..0.1), tight (windows at the edge of feasibility, zero-width boxes), nonconvergent (exact-model features with SLSQP limited to 1-2 iterations: must fail), corpus; draws whose box is empty for some unit (decided by the Coq model) or with a non-finite position are invalid arguments, outside the property: counted as skipped, not run; "
+        "every unit goes through the Coq monitor check_unit and through the driver replay check_drive (recorded prepare_subimages / minimize outcomes "
+        "per iteration as oracles of Model/RefineDriver2; iteration count, failed/fitted, written-back values and cost must agree exactly); "
+        "(d) every direct case also through the code generated from the current source (Gen/bounds.v). non-trivial = direct case with a non-empty dictionary / run with a fitted unit and "
         "(several units or a bounds dictionary or non-default modes); distinct by content")
     chk.assumptions += [
+        "route T: tools/py2coq_bounds.py (fail-closed) and the vocabulary Model/PyBounds.v are trusted; exercised on every direct case by executing the generated code "
+        "against the implementation; hand-written on the generated side: dict look-up / `is np.nan` / column membership / IEEE special values / nanmax,fmax / broadcasting / "
+        "vect_from_params = pack (C15's subject)",
+        "driver replay: wrappers on minimize / prepare_subimages / FitFunctions.compute_bounds of the imported module record the oracle outcomes; rms_dev is recomputed as "
+        "sqrt(fun / 100000.) (default residual_factor); the float shift test is guarded by running the model with max_shift (1 -+ 1e-9) (disagreement = skipped, counted)",
         "SLSQP returns a point of the box on success (hypothesis opt_in_box of C16_success_in_bounds); exercised by the monitor, not proved",
         "float arithmetic of compute_bounds agrees with exact rationals within 2^-40 relative; monitor tolerance on box membership 1e-9 relative",
         "no theorem covers 'no other Python exception escapes' or the 0.1 px accuracy sentence: monitor only (status partial)",
@@ -859,7 +1146,7 @@ def replay(chk, path):
     common.quiet_trackpy()
     import logging
     logging.getLogger('trackpy').setLevel(logging.CRITICAL)
-    chk.coq()
+    build(chk)
     r = json.load(open(path))['replay']
     if r.get('kind') == 'run':
         c = case_unjson(r['case'])
@@ -876,10 +1163,14 @@ def replay(chk, path):
         c = dict(r['case'])
         c['bounds'] = unjs_bounds(c['bounds'])
         modes, v, box = run_direct(c)
-        res = common.coq_eval_lists(chk.work, IMPORTS, "fun x : N => x", [direct_terms(c, modes, v, box)])
+        if r.get('via') == 'generated' and STATE['gen_ok']:
+            res = common.coq_eval_lists(chk.work, IMPORTS_GEN, "fun x : N => x", [direct_gen_term(c, modes, box)])
+        else:
+            res = common.coq_eval_lists(chk.work, IMPORTS, "fun x : N => x", [direct_terms(c, modes, v, box)])
         chk.count(('direct', json.dumps(r['case'], sort_keys=True)), True)
         print('replay: validate_bounds', v, '\ncompute_bounds', box, '\nmonitor code', res[0], CODES.get(res[0]))
         if res[0] != 0:
-            chk.violation('bounds: ' + CODES.get(res[0], str(res[0])), CODES.get(res[0], str(res[0])), dict(kind='direct', code=res[0], case=r['case']))
+            pre = 'generated bounds code: ' if (r.get('via') == 'generated' and STATE['gen_ok']) else 'bounds: '
+            chk.violation(pre + CODES.get(res[0], str(res[0])), CODES.get(res[0], str(res[0])), dict(kind='direct', code=res[0], via=r.get('via'), case=r['case']))
     else:
         print('replay: nothing executable in this replay file (proof/correspondence breakage): see its log field')
